@@ -12,11 +12,24 @@ From Verif Require Import Base.Num Base.Vec C06.Syntax Gen.UfuncDeriv.
 Import ListNotations.
 Local Open Scope num_scope.
 
-Inductive space := SF | SV (n : nat).
-Definition sdim (s : space) : nat := match s with SF => 1%nat | SV n => n end.
+(* SP ns = ProductSpace(rn(n1), ..., rn(nk)); its elements are modelled FLAT (the
+   concatenation of the parts), so every operator is a map list -> list *)
+Inductive space := SF | SV (n : nat) | SP (ns : list nat).
+Definition sdim (s : space) : nat :=
+  match s with SF => 1%nat | SV n => n | SP ns => list_sum ns end.
+Fixpoint nats_eqb (a b : list nat) : bool :=
+  match a, b with
+  | [], [] => true
+  | n :: a', m :: b' => Nat.eqb n m && nats_eqb a' b'
+  | _, _ => false
+  end.
 Definition space_eqb (a b : space) : bool :=
-  match a, b with SF, SF => true | SV n, SV m => Nat.eqb n m | _, _ => false end.
-Definition is_SV (s : space) : bool := match s with SV _ => true | SF => false end.
+  match a, b with
+  | SF, SF => true | SV n, SV m => Nat.eqb n m | SP a', SP b' => nats_eqb a' b'
+  | _, _ => false
+  end.
+Definition is_SV (s : space) : bool := match s with SV _ => true | _ => false end.
+Definition is_field (s : space) : bool := match s with SF => true | _ => false end.
 
 (* primitives the carrier class does not provide *)
 Record prims (T : Type) := {
@@ -58,6 +71,20 @@ Fixpoint ueval (e : uex) (p : T) : T :=
   | UNeg a => - ueval a p
   | UPow a n => npow (ueval a p) (Pos.to_nat n)
   end.
+
+(* ---------- blocks of a flat product-space element ---------- *)
+Section Blocks.
+Context {A B : Type}.
+Variable f : A -> list T -> B.
+Variable size : A -> nat.
+(* apply f to every a with its own block of x (blocks have the sizes size a, in order) *)
+Fixpoint blockmap (l : list A) (x : list T) : list B :=
+  match l with
+  | [] => []
+  | a :: r => f a (firstn (size a) x) :: blockmap r (skipn (size a) x)
+  end.
+End Blocks.
+Definition vsum (m : nat) (l : list (list T)) : list T := fold_right vadd (vconst m nzero) l.
 
 (* ---------- leaves ---------- *)
 Inductive leaf :=
@@ -136,20 +163,28 @@ Inductive oexpr :=
 | ORScal (a : oexpr) (s : T)         (* OperatorRightScalarMult: a(s * x) *)
 | OLVec (a : oexpr) (v : list T)     (* OperatorLeftVectorMult:  v * a(x) *)
 | ORVec (a : oexpr) (v : list T)     (* OperatorRightVectorMult: a(v * x) *)
-| OFLVec (a : oexpr) (v : list T).   (* FunctionalLeftVectorMult: v * a(x), a scalar-valued *)
+| OFLVec (a : oexpr) (v : list T)    (* FunctionalLeftVectorMult: v * a(x), a scalar-valued *)
+| OBroadcast (ops : list oexpr)      (* BroadcastOperator:  x |-> [op_i(x)] *)
+| OReduction (ops : list oexpr)      (* ReductionOperator:  [x_i] |-> sum_i op_i(x_i) *)
+| ODiagonal (ops : list oexpr).      (* DiagonalOperator:   [x_i] |-> [op_i(x_i)] *)
 
 Fixpoint dom (e : oexpr) : space :=
   match e with
   | OLeaf l => ldom l
   | OComp _ b => dom b
   | OSum a _ | OVecSum a _ | OPProd a _ | OLScal a _ | ORScal a _ | OLVec a _ | ORVec a _ | OFLVec a _ => dom a
+  | OBroadcast ops => match ops with a :: _ => dom a | [] => SV 0 end
+  | OReduction ops | ODiagonal ops => SP (map (fun a => sdim (dom a)) ops)
   end.
 Fixpoint ran (e : oexpr) : space :=
   match e with
   | OLeaf l => lran l
   | OFLVec _ v => SV (length v)
   | OSum a _ | OVecSum a _ | OComp a _ | OPProd a _ | OLScal a _ | ORScal a _ | OLVec a _ | ORVec a _ => ran a
+  | OReduction ops => match ops with a :: _ => ran a | [] => SV 0 end
+  | OBroadcast ops | ODiagonal ops => SP (map (fun a => sdim (ran a)) ops)
   end.
+Definition dsize (a : oexpr) : nat := sdim (dom a).
 
 (* the flag computed by the constructors' __init__ *)
 Fixpoint is_lin (e : oexpr) : bool :=
@@ -159,6 +194,7 @@ Fixpoint is_lin (e : oexpr) : bool :=
   | OVecSum _ _ => false               (* Operator.__init__ default *)
   | OPProd _ _ => false                (* linear=False hard-coded *)
   | OLScal a _ | ORScal a _ | OLVec a _ | ORVec a _ | OFLVec a _ => is_lin a
+  | OBroadcast ops | OReduction ops | ODiagonal ops => forallb is_lin ops   (* all(op.is_linear) *)
   end.
 
 (* the domain/range checks of the constructors *)
@@ -166,11 +202,27 @@ Fixpoint wt (e : oexpr) : bool :=
   match e with
   | OLeaf l => lwt l
   | OSum a b | OPProd a b => wt a && wt b && space_eqb (dom a) (dom b) && space_eqb (ran a) (ran b)
-  | OVecSum a v | OLVec a v => wt a && space_eqb (ran a) (SV (length v))
+  | OVecSum a v | OLVec a v => wt a && negb (is_field (ran a)) && Nat.eqb (length v) (sdim (ran a))
   | OComp a b => wt a && wt b && space_eqb (ran b) (dom a)
   | OLScal a _ | ORScal a _ => wt a
-  | ORVec a v => wt a && space_eqb (dom a) (SV (length v))
+  | ORVec a v => wt a && negb (is_field (dom a)) && Nat.eqb (length v) (sdim (dom a))
   | OFLVec a _ => wt a && space_eqb (ran a) SF
+  (* blocks: parts are tensor spaces rn(n) (no fields, no nested products) *)
+  | OBroadcast ops =>
+      match ops with
+      | [] => false
+      | a0 :: _ => forallb (fun a => wt a && is_SV (dom a) && is_SV (ran a) && space_eqb (dom a) (dom a0)) ops
+      end
+  | OReduction ops =>
+      match ops with
+      | [] => false
+      | a0 :: _ => forallb (fun a => wt a && is_SV (dom a) && is_SV (ran a) && space_eqb (ran a) (ran a0)) ops
+      end
+  | ODiagonal ops =>
+      match ops with
+      | [] => false
+      | _ :: _ => forallb (fun a => wt a && is_SV (dom a) && is_SV (ran a)) ops
+      end
   end.
 
 Fixpoint eval (e : oexpr) (x : list T) : list T :=
@@ -185,6 +237,10 @@ Fixpoint eval (e : oexpr) (x : list T) : list T :=
   | OLVec a v => vmul (eval a x) v
   | ORVec a v => eval a (vmul x v)
   | OFLVec a v => vscal (hd nzero (eval a x)) v
+  | OBroadcast ops => concat (map (fun a => eval a x) ops)
+  | OReduction ops =>
+      vsum (match ops with a :: _ => sdim (ran a) | [] => 0%nat end) (blockmap eval dsize ops x)
+  | ODiagonal ops => concat (blockmap eval dsize ops x)
   end.
 
 (* ---------- the overloads used while building derivatives ---------- *)
@@ -195,7 +251,7 @@ Definition mk_lscal (s : T) (e : oexpr) : oexpr :=
 (* y * op for y = other(x) in op.range: a Number when the range is the field
    (-> OperatorLeftScalarMult), an element otherwise (-> OperatorLeftVectorMult) *)
 Definition mk_lmul (r : space) (y : list T) (e : oexpr) : oexpr :=
-  match r with SF => mk_lscal (hd nzero y) e | SV _ => OLVec e y end.
+  match r with SF => mk_lscal (hd nzero y) e | _ => OLVec e y end.
 
 (* ---------- leaf derivatives ---------- *)
 Definition lderiv (l : leaf) (x : list T) : oexpr :=
@@ -238,6 +294,10 @@ Fixpoint derivative (e : oexpr) (x : list T) : oexpr :=
   | OLVec a v => if is_lin a then e else OLVec (derivative a x) v
   | ORVec a v => if is_lin a then e else ORVec (derivative a (vmul v x)) v
   | OFLVec a v => if is_lin a then e else OFLVec (derivative a x) v
+  (* block rules: no linear shortcut; each block at ITS part of the point *)
+  | OBroadcast ops => OBroadcast (map (fun a => derivative a x) ops)
+  | OReduction ops => OReduction (blockmap derivative dsize ops x)
+  | ODiagonal ops => ODiagonal (blockmap derivative dsize ops x)
   end.
 
 Fixpoint deriv_ok (e : oexpr) (x : list T) : bool :=
@@ -251,13 +311,16 @@ Fixpoint deriv_ok (e : oexpr) (x : list T) : bool :=
   | OLScal a _ | OLVec a _ | OFLVec a _ => is_lin a || deriv_ok a x
   | ORScal a s => deriv_ok a (vscal s x)
   | ORVec a v => is_lin a || deriv_ok a (vmul v x)
+  | OBroadcast ops => forallb (fun a => deriv_ok a x) ops
+  | OReduction ops | ODiagonal ops => forallb (fun b => b) (blockmap deriv_ok dsize ops x)
   end.
 
 End Model.
 
 Arguments OLeaf {T}. Arguments OSum {T}. Arguments OVecSum {T}. Arguments OComp {T}.
 Arguments OPProd {T}. Arguments OLScal {T}. Arguments ORScal {T}. Arguments OLVec {T}.
-Arguments ORVec {T}. Arguments OFLVec {T}.
+Arguments ORVec {T}. Arguments OFLVec {T}. Arguments OBroadcast {T}. Arguments OReduction {T}.
+Arguments ODiagonal {T}.
 Arguments LScale {T}. Arguments LMul {T}. Arguments LMat {T}. Arguments LInner {T}.
 Arguments LZero {T}. Arguments LConst {T}. Arguments LPow {T}. Arguments LUf {T}.
 Arguments LNorm {T}. Arguments LDist {T}. Arguments LAbs {T}. Arguments LAbsD {T}.
